@@ -84,7 +84,11 @@ Definition class_at (h : heap) (l : loc) : string := match get h l with Some o =
 (* ---------- what an object's denotation reads ---------- *)
 Definition is_cache (f : string) : bool :=
   str_eqb f "_mutable_vars" || str_eqb f "_variable_name" || str_eqb f "_geometry".
-Definition is_scratch (o : obj) : bool := String.prefix "Scratch." (class_of o).
+(* objects the denotation of a density / model never reads through: the re-synchronised inner Gaussian of a Lognormal
+   ("Scratch.<class>") and sampler objects ("Sampler.<class>": block samplers held by a Gibbs sampler; they REFER to
+   conditioned copies as their targets, no density refers to them) *)
+Definition scratch_class (c : string) : bool := String.prefix "Scratch." c || String.prefix "Sampler." c.
+Definition is_scratch (o : obj) : bool := scratch_class (class_of o).
 Definition sem_obj (o : obj) : obj :=
   if is_scratch o then [("__class__", VStr (class_of o))]
   else filter (fun fv => negb (is_cache (fst fv))) o.
@@ -606,7 +610,12 @@ Definition check_apply (hb : heap) (m d : loc) (ha : heap) (res : loc) : bool :=
        copy(...), _make_copy(), a constructor, a literal/comprehension/slice copy, or a keyword dictionary): these are the
        writes the model performs on locations it has just allocated; writes to `self` in __init__ and in property setters
        (object construction; setters are only invoked on the fresh copy by Distribution._condition);
-     * writes of a sampler object to its own state (HybridGibbs / Gibbs);
+     * writes of a sampler object to its own state (HybridGibbs / Gibbs), and "sampler-attr": re-binding an attribute OF one of
+       the block-sampler objects a Gibbs object holds in `self.samplers` (the translator establishes the provenance: the
+       receiver is `self.samplers[...]`, a local bound only from it / from iterating `self.samplers.values()`, or a method
+       parameter that receives such a value at every call site).  An attribute store modifies the receiver object only, here
+       an object of a sampler class, which no density, likelihood, model or geometry reads (is_scratch; theorem
+       C11_frame_sampler_write); a store THROUGH a sampler into something else (`sampler.target.x = ...`) is not of this kind;
      * individually, by the table below (category in the comment).
    ===================================================================================================== *)
 Definition write_fact := (string * string * string)%type.      (* (function, kind, target) *)
@@ -614,7 +623,7 @@ Definition wf_eqb (a b : write_fact) : bool :=
   str_eqb (fst (fst a)) (fst (fst b)) && str_eqb (snd (fst a)) (snd (fst b)) && str_eqb (snd a) (snd b).
 Definition wf_mem (a : write_fact) (l : list write_fact) : bool := existsb (wf_eqb a) l.
 Definition generic_kind (k : string) : bool :=
-  mem_str k ["aug-local-fresh"; "aug-attr-fresh"; "aug-sub-fresh"; "fresh-attr"; "fresh-sub"; "mutcall-fresh"; "fresh-setattr";
+  mem_str k ["sampler-attr"; "aug-local-fresh"; "aug-attr-fresh"; "aug-sub-fresh"; "fresh-attr"; "fresh-sub"; "mutcall-fresh"; "fresh-setattr";
              "self-attr-init"; "self-attr-setter"].
 Definition sampler_own_state (w : write_fact) : bool :=
   str_eqb (snd (fst w)) "self-attr" && (String.prefix "HybridGibbs." (fst (fst w)) || String.prefix "Gibbs." (fst (fst w))).
@@ -650,13 +659,10 @@ Definition C11_accounted : list write_fact := [
   (* construction-time normalisation of argument lists (not a C11 operation) *)
   ("JointGaussianSqrtPrec.__init__", "alias-sub", "means");
   ("JointGaussianSqrtPrec.__init__", "alias-sub", "sqrtprecs");
-  (* sampler objects writing sampler state (their targets are conditioned copies) *)
-  ("HybridGibbs.step", "alias-attr", "sampler.initial_point");
+  (* Gibbs objects mutating containers that belong to sampler state (chains, acceptance lists, bookkeeping dictionaries) *)
   ("HybridGibbs.step", "mutcall-alias", "sampler._acc.append");
   ("HybridGibbs.step", "alias-sub", "self.current_samples");
   ("HybridGibbs._initialize_num_sampling_steps", "alias-sub", "self.num_sampling_steps");
-  ("HybridGibbs._set_target", "alias-attr", "self.samplers[par_name].target");
-  ("HybridGibbs._get_initial_points", "alias-attr", "sampler.initial_point");
   ("HybridGibbs._store_samples", "mutcall-alias", "self.samples[par_name].append");
   ("Gibbs.__init__", "alias-sub", "self.samplers");
   ("Gibbs.step", "alias-sub", "current_samples");
